@@ -30,7 +30,7 @@ func NewDG14(data []byte) (dg14 *DG14, err error) {
 		return nil, fmt.Errorf("[NewDG14] error: %w", err)
 	}
 
-	rootNode := nodes.NodeByTag(DG14Tag)
+	rootNode := lookupRootNode(nodes, DG14Tag)
 
 	if !rootNode.IsValidNode() {
 		return nil, fmt.Errorf("root node (%x) missing", DG14Tag)
